@@ -395,11 +395,14 @@ def main():
             o = (out[k] if k < len(out) else 'missing') if out is not None else e
             parts = [x.strip() for x in o.split(' | ')]
             m = parts[0]; s = parts[1] if len(parts) > 1 else None
-            cls = predicates.classify(name, line, e)
+            cls = str(predicates.classify(name, line, e))[:160]      # a class label, never a whole answer (evidence files stay small)
             dist[cls] = dist.get(cls, 0) + 1
             if m.startswith('unmodelled'): skipped += 1; continue
             if predicates.nontrivial(name, line, e): nontrivial.add(hashlib.md5(line.encode()).digest()[:8])
             if view(e) != view(m): dis_model.append((k, line, e, m))
+            if oracle == 'model' and view(e) != view(m):
+                # the Lean definition IS the judge the property names (sequence model, calendar, conversion definitions): a disagreement is a failing input
+                falsifier_cases += 1; dis_spec.append((k, line, e, m))
             if s is not None and oracle == 'spec':
                 falsifier_cases += 1
                 if view(e) != view(s): dis_spec.append((k, line, e, s))
